@@ -106,6 +106,7 @@ func raceGlobalLevel(c *Ctx) {
 				w := &raceWriter{}
 				var hooks [256]int64
 				var funcs, msgfuncs, objs = make([]int64, len(entries)), make([]int64, len(entries)), make([]int64, len(entries))
+				panics := make([]int64, len(entries))
 				lg := zerolog.New(w).Level(zerolog.Level(L)).Hook(zerolog.HookFunc(func(e *zerolog.Event, lv zerolog.Level, m string) {
 					atomic.AddInt64(&hooks[int(lv)+128], 1)
 				}))
@@ -136,10 +137,18 @@ func raceGlobalLevel(c *Ctx) {
 							for k := range entries {
 								k := (k + g) % len(entries)
 								en := &entries[k]
-								en.mk(&l).
-									Func(func(e *zerolog.Event) { atomic.AddInt64(&funcs[k], 1) }).
-									Object("o", raceObj{&objs[k]}).
-									MsgFunc(func() string { atomic.AddInt64(&msgfuncs[k], 1); return "" })
+								func() {
+									// none of the entries is Panic(): a panic is counted and judged below instead of ending the run
+									defer func() {
+										if r := recover(); r != nil {
+											atomic.AddInt64(&panics[k], 1)
+										}
+									}()
+									en.mk(&l).
+										Func(func(e *zerolog.Event) { atomic.AddInt64(&funcs[k], 1) }).
+										Object("o", raceObj{&objs[k]}).
+										MsgFunc(func() string { atomic.AddInt64(&msgfuncs[k], 1); return "" })
+								}()
 							}
 							n++
 							if cur := zerolog.GlobalLevel(); cur != last {
@@ -187,6 +196,11 @@ func raceGlobalLevel(c *Ctx) {
 					always := en.lvl >= L && en.lvl >= hi && en.lvl != 7
 					never := en.lvl < L || en.lvl < lo || en.lvl == 7
 					inv := map[string]int64{"func_callbacks": atomic.LoadInt64(&funcs[k]), "msgfunc_callbacks": atomic.LoadInt64(&msgfuncs[k]), "object_marshaler_calls": atomic.LoadInt64(&objs[k])}
+					if np := atomic.LoadInt64(&panics[k]); np != 0 {
+						c.Violate(Violation{Key: "panic-callback-wrong", Monitor: "gate-concurrent-global",
+							Desc: fmt.Sprintf("logger level %d, global level alternating between %d and %d (concurrently): %d of %d %s statements panicked (only Panic() may)", L, A, B, np, sent, en.name),
+							Case: base(en), Observed: np, Expected: 0})
+					}
 					switch {
 					case never:
 						judgedFiltered++
